@@ -151,6 +151,13 @@ C12_TagFixed(kind, bytes, size) ==
     /\ Len(bytes) >= HeaderSize
     /\ <<bytes[1], bytes[2]>> = HeaderBytes(kind)
 
+\* "the numeric tag of each kind is fixed so that independently built nodes interoperate": bytes produced by the
+\* pinned revision for a fixed value (a golden vector) are what any other build must produce for that value and
+\* must decode -- the tags of record kinds and of every message / address / error variant, and the layout around
+\* them, are on the wire.  dec = the current build decodes the golden bytes; reenc = it encodes the decoded value
+\* to exactly the golden bytes; same = it encodes the fixed value itself to exactly the golden bytes.
+C12_WireStable(dec, reenc, same) == dec = "ok" /\ reenc /\ same
+
 \* decode(encode(kind, v)) = (kind, v): the header decodes to the same kind, the payload decodes, the decoded
 \* value equals the original and encodes to the same bytes again
 C12_RoundTrip(kind, hdrKind, dec, eqValue, eqBytes) ==
